@@ -796,3 +796,15 @@ pub fn params_for(prop: &str, thorough: bool) -> GenParams {
 		},
 	}
 }
+
+pub fn run(seeds: &[u64], thorough: bool, root: &Path, t: &mut Trace, ctr: &mut Counters, prop: &str) -> u64 {
+	let p = params_for(prop, thorough);
+	let mut fails = 0;
+	for s in seeds.iter().copied() {
+		if !run_case(s, &p, root, t, ctr, prop) {
+			fails += 1;
+			t.comment(&format!("FAILED-CASE seed={}", s));
+		}
+	}
+	fails
+}
